@@ -121,11 +121,17 @@ FACTORY = [
 ]
 
 
-def factory(t):
+# the same arguments in their EMPTY state (a refused call's failure value must not depend on what the valid arguments hold)
+EMPTY = {'SPIF_STR(mk_str())': 'SPIF_STR(mk_str_empty())', 'mk_ustr()': 'mk_ustr_empty()', 'mk_mbuff()': 'mk_mbuff_empty()',
+         'SPIF_OBJ(mk_str())': 'SPIF_OBJ(mk_str_empty())', 'SPIF_CHARPTR(verif_text)': 'SPIF_CHARPTR(verif_empty)', '(char *) verif_text': '(char *) verif_empty',
+         '(spif_byteptr_t) verif_text': '(spif_byteptr_t) verif_empty', '1': '0'}
+
+
+def factory(t, empty=False):
     t = re.sub(r'\bregister\b', '', t).strip()
     for pat, expr in FACTORY:
         if re.match(pat, t):
-            return expr
+            return EMPTY.get(expr, expr) if empty else expr
     return 'UNSUPPORTED'
 
 
@@ -138,15 +144,27 @@ def emit(path):
         cur = protos.get(e['func'])
         if cur is None or len(cur['params']) != len(e['params']):
             continue                               # prototype gone or changed shape: reported as uncontracted by the spec
+        variants = []
         for gi, g in enumerate(e['guards']):
             if re.search(r'\bself\b', g['value']):
                 continue                           # failure value is itself a call on the object: not expressible here
+            variants.append(([g['param']], g, '', False))
+            variants.append(([g['param']], g, 'e', True))
+        # every guarded parameter NULL at once: comparison methods answer EQUAL for two NULLs (the NULL ordering);
+        # other functions are checked when all their guards name the same failure value
+        gs = [g for g in e['guards'] if not re.search(r'\bself\b', g['value'])]
+        if len(gs) >= 2:
+            if all(g['kind'] == 'COMP' for g in gs) and len(gs) == 2:
+                variants.append(([g['param'] for g in gs], dict(gs[0], value='SPIF_CMP_EQUAL'), 'all', False))
+            elif len(set(g['value'] for g in gs)) == 1:
+                variants.append(([g['param'] for g in gs], gs[0], 'all', False))
+        for nulls, g, tag, empty in variants:
             args, ok = [], True
             for i, t in enumerate(cur['params']):
-                if i == g['param']:
+                if i in nulls:
                     args.append('(%s) 0' % re.sub(r'\bregister\b|\bconst\b', '', t).strip() if t != '...' else '0')
                     continue
-                f = factory(t)
+                f = factory(t, empty)
                 if f == 'UNSUPPORTED':
                     ok = False
                     break
@@ -154,23 +172,26 @@ def emit(path):
                     args.append(f)
             if not ok:
                 continue
-            fn = 'n_%s_%d' % (e['func'], g['param'])
+            if empty and args == [a for a in (('(%s) 0' % re.sub(r'\bregister\b|\bconst\b', '', t).strip()) if i in nulls else factory(t) for i, t in enumerate(cur['params']) if t != '...' or i in nulls) if a is not None]:
+                continue                           # no argument has an empty state: same call as the plain variant
+            fn = 'n_%s_%s%s' % (e['func'], '_'.join(str(n) for n in nulls), tag)
             ret = cur['ret']
             isvoid = ret == 'void'
             val = g['value']
             isnan = 'NAN' in val
+            what = 'NULL at %s%s' % (','.join(str(n) for n in nulls), ', other arguments empty' if empty else '')
             body = ['static void', '%s(void)' % fn, '{']
             body.append('    null_begin();')
             if isvoid:
                 body.append('    %s(%s);' % (e['func'], ', '.join(args)))
             elif isnan:
-                body.append('    { double r_ = %s(%s); NULL_RESULT("%s(NULL at %d) returns its failure value", r_ != r_); }' % (e['func'], ', '.join(args), e['func'], g['param']))
+                body.append('    { double r_ = %s(%s); NULL_RESULT("%s(%s) returns its failure value", r_ != r_); }' % (e['func'], ', '.join(args), e['func'], what))
             else:
-                body.append('    NULL_RESULT("%s(NULL at %d) returns its failure value", %s(%s) == (%s));' % (e['func'], g['param'], e['func'], ', '.join(args), val))
+                body.append('    NULL_RESULT("%s(%s) returns its failure value", %s(%s) == (%s));' % (e['func'], what, e['func'], ', '.join(args), val))
             body.append('    null_end();')
             body.append('}')
             out += body + ['']
-            entries.append((fn, e['func'], g['param'], g['kind']))
+            entries.append((fn, e['func'], '+'.join(str(n) for n in nulls) + ('/' + tag if tag else ''), g['kind']))
     out.append('#include VERIF_ENTRIES')
     open(path, 'w').write('\n'.join(out) + '\n')
     return entries
